@@ -240,6 +240,10 @@ class Replayer:
             return "text"
         if new == 0 and lo == hi:
             return "text"
+        # a third of the plain replacements go through the pattern front end (processing.find_replace), which has to hand
+        # the transaction number on - 0 included
+        if new >= 2 and hi - lo in (1, 3) and (lo * 5 + hi + new) % 3 == 0:
+            return "find"
         return "ast" if (lo * 7 + hi * 3 + new) % 2 == 0 else "text"
 
     def run(self, rec: dict, entry: str):
@@ -248,7 +252,7 @@ class Replayer:
         ignored_lines = {lay.lines.index(tuple(r)) for r in rec["ignored"]}
         source, offs = lay.source(ignored_lines)
         tree = ast.parse(source)
-        cache: Dict[Tuple[int, int, int], tuple] = {}
+        cache: Dict[tuple, tuple] = {}
         ngroups = max([y["g"] for y in rec["yields"]] + [1])
         calls = [0] * (ngroups + 1)
 
@@ -258,15 +262,21 @@ class Replayer:
             return stmt if hi - lo == 3 else stmt.value.args[0]
 
         def make(y):
-            key = (y["lo"], y["hi"], y["new"])
+            lo, hi, new = y["lo"], y["hi"], y["new"]
+            form = self._form(lo, hi, new)
+            # members of an explicit transaction go through the pattern front end whenever they can
+            if y["txn"] != -1 and lay.mode == "stmt" and new >= 2 and hi - lo in (1, 3):
+                form = "find"
+            key = (lo, hi, new, form)
             if key in cache:
                 return cache[key]
-            lo, hi, new = key
-            form = self._form(lo, hi, new)
             text = lay.marker_text(new)
             if lay.mode == "block" and new == 2:      # Dedent: the same code without its blank units
                 text = "".join(lay.unit_text(u, set()) for u in range(lo + 1, hi + 1) if lay.unit_text(u, set()).strip())
-            if form == "text":
+            if form == "find":
+                l = lo // 4
+                pair = ("find", (f"f{l}(a{l})" if hi - lo == 3 else f"a{l}", text))
+            elif form == "text":
                 if lay.mode == "stmt" and lo == hi and lo % 4 == 0 and text:
                     text = text + "\n"
                 pair = (core.Range(offs[lo], offs[hi]), text)
@@ -290,19 +300,33 @@ class Replayer:
             cache[key] = pair
             return pair
 
+        explicit_rank = {v: i for i, v in enumerate(sorted({y["txn"] for y in rec["yields"] if y["txn"] != -1}))}
+
         def make_rule(g):
             ys = [y for y in rec["yields"] if y["g"] == g]
 
-            def rule(source):
+            def body(source):
                 calls[g] += 1
                 if source != rule.orig:
                     return
                 for y in ys:
                     old, new = make(y)
-                    if y["txn"] == -1:
+                    # explicit transaction numbers by rank, from 0 (order is all that matters, and 0 is a number like any other)
+                    txn = None if y["txn"] == -1 else explicit_rank[y["txn"]]
+                    if old == "find":
+                        yield from processing.find_replace(source, new[0], new[1], transaction=txn)
+                    elif txn is None:
                         yield (old, new)
                     else:
-                        yield (old, new, y["txn"])
+                        yield (old, new, txn)
+
+            # every other rule of a chain takes the preserve set: chain() must keep the rules in the order given
+            if entry == "chain" and g % 2 == 0:
+                def rule(source, preserve):
+                    yield from body(source)
+            else:
+                def rule(source):
+                    yield from body(source)
             rule.orig = source
             rule.__name__ = f"synthetic_rule_{g}"
             return rule
